@@ -19,6 +19,9 @@ CONSTANTS
   MaxOps = %(ops)d
   Expectations = {%(exp)s}
   D = %(D)d
+  Buckets = {%(buckets)s}
+  Fams = {%(fams)s}
+  Keeps = {%(keeps)s}
 INVARIANTS Dump
 CHECK_DEADLOCK FALSE
 """
@@ -34,57 +37,133 @@ CHECK_DEADLOCK FALSE
 
 
 def beh_to_exec(h):
-    return [[st["op"], st["ph"], st["arg"]] for st in h]
+    return [[st["op"], st["ph"], st["arg"], st["arg2"], st["bk"], st["fam"]] for st in h]
+
+
+def chain_shapes(ex):
+    """Measured from a program (mirrors only the script's own placement choices): does a test end while one of its blocks
+    shares a designated bucket with a block that does not belong to it - counted separately for a foreign block placed
+    there EARLIER (older in the chain) and LATER (a re-inserted or reporting-time record in front of the test's block)."""
+    where, owner, order, cur, n = {}, {}, {}, 0, 0
+    older = newer = False
+    tno = 0
+    for l in ex:
+        op, ph, arg, arg2, bk = l[0], l[1], int(l[2]), int(l[3]), int(l[4])
+        n += 1
+        if op == "begin":
+            tno += 1; cur = tno
+        elif op == "alloc":
+            where[arg], owner[arg], order[arg] = bk, cur, n
+        elif op == "realloc":
+            where[arg2], owner[arg2], order[arg2] = bk, cur, n
+            where.pop(arg, None)
+        elif op == "rfail" and arg in where:
+            order[arg] = n                      # the record goes back to the head of its chain
+        elif op == "free":
+            where.pop(arg, None)
+        elif op == "end":
+            if arg:
+                where[arg], owner[arg], order[arg] = bk, 0, n
+            for i, b in where.items():
+                if b and owner.get(i) == cur:
+                    for j, c in where.items():
+                        if c == b and owner.get(j) != cur:
+                            if order[j] < order[i]:
+                                older = True
+                            else:
+                                newer = True
+            cur = 0
+    return older, newer
 
 
 def random_program(rng, ntests):
-    """Seeded random run: allocations and releases in all three phases and between tests, releases of earlier tests' blocks,
-    expected counts (right and wrong), ignore flags, own failures anywhere. Mirrors the enabling conditions only."""
+    """Seeded random run: allocations, releases and re-allocations (moving and failing) in all three phases and between
+    tests (also before the first test), releases of earlier tests' blocks, expected counts (right and wrong), ignore flags,
+    own failures anywhere, an output that keeps copies of leak failures.  Most blocks are placed in one of a few designated
+    buckets of the detector's table, so that every test's blocks share chains with older outstanding blocks.  Mirrors the
+    enabling conditions only (copies kept by the output are never referred to again)."""
     ex, live, nid = [], [], 1
+    mal = set()
     mine = []
+    nb = rng.choice([1, 2, 3, 6])
+
+    def bucket():
+        return 0 if rng.random() < 0.15 else rng.randrange(1, nb + 1)
+
+    def alloc(ph):
+        nonlocal nid
+        fam = 1 if rng.random() < 0.5 else 0
+        ex.append(["alloc", ph, nid, 0, bucket(), fam])
+        if fam:
+            mal.add(nid)
+        nid += 1
+        return nid - 1
     for t in range(ntests):
-        for _ in range(rng.choice([0, 0, 0, 1, 2])):          # between tests
-            if live and rng.random() < 0.4:
-                i = rng.choice(live); live.remove(i); ex.append(["free", "o", i])
+        for _ in range(rng.choice([0, 0, 1, 2, 3]) if t else rng.choice([0, 2, 4])):          # between tests / before the first
+            r = rng.random()
+            if live and r < 0.35:
+                i = rng.choice(live); live.remove(i); ex.append(["free", "o", i, 0, 0, 0])
+            elif r < 0.45 and [i for i in live if i in mal]:
+                i = rng.choice([i for i in live if i in mal])
+                ex.append(["rfail", "o", i, 0, 0, 1])
             else:
-                ex.append(["alloc", "o", nid]); live.append(nid); nid += 1
-        ex.append(["begin", "o", 0])
+                live.append(alloc("o"))
+        ex.append(["begin", "o", 0, 0, 0, 0])
         aborted, mine = set(), []
         style = rng.random()
         for ph in "sbt":
-            for _ in range(rng.choice([0, 1, 1, 2, 3]) if ph == "b" else rng.choice([0, 0, 1, 2])):
+            for _ in range(rng.choice([0, 1, 1, 2, 3, 4]) if ph == "b" else rng.choice([0, 0, 1, 2])):
                 runs = ph not in aborted and not (ph == "b" and "s" in aborted)
                 r = rng.random()
-                if r < 0.40 and len(mine) < 7:
-                    ex.append(["alloc", ph, nid])
+                rl = [i for i in live if i in mal]
+                if r < 0.34 and len(mine) < 7:
+                    i = alloc(ph)
                     if runs:
-                        live.append(nid); mine.append(nid)
-                    nid += 1
-                elif r < 0.70 and live:
+                        live.append(i); mine.append(i)
+                elif r < 0.58 and live:
                     # own blocks preferably, earlier tests' blocks often
                     pool = mine if (mine and rng.random() < 0.6) else live
                     i = rng.choice(pool)
-                    ex.append(["free", ph, i])
+                    ex.append(["free", ph, i, 0, 0, 0])
                     if runs:
                         live.remove(i)
                         if i in mine:
                             mine.remove(i)
-                elif r < 0.82:
+                elif r < 0.68 and rl:
+                    # out of memory while growing a block - an older one as a rule: its record moves to the head of its chain
+                    old = [i for i in rl if i not in mine]
+                    i = rng.choice(old if old and rng.random() < 0.8 else rl)
+                    ex.append(["rfail", ph, i, 0, 0, 1])
+                elif r < 0.74 and rl and (len(mine) < 7):
+                    i = rng.choice(rl)
+                    ex.append(["realloc", ph, i, nid, bucket(), 1])
+                    mal.add(nid)
+                    if runs:
+                        live.remove(i)
+                        if i in mine:
+                            mine.remove(i)
+                        live.append(nid); mine.append(nid)
+                    nid += 1
+                elif r < 0.84:
                     n = len(mine) if rng.random() < 0.5 else rng.choice([0, 1, 2, 3])
-                    ex.append(["expect", ph, n])
-                elif r < 0.88:
-                    ex.append(["ignore", ph, 0])
+                    ex.append(["expect", ph, n, 0, 0, 0])
+                elif r < 0.89:
+                    ex.append(["ignore", ph, 0, 0, 0, 0])
                 elif r < 0.95 and style < 0.35:
-                    ex.append(["fail", ph, 0])
+                    ex.append(["fail", ph, 0, 0, 0, 0])
                     if runs:
                         aborted.add(ph)
-        ex.append(["end", "o", 0])
-    ex.append(["final", "o", 0])
+        if rng.random() < 0.4:
+            ex.append(["end", "o", nid, 0, bucket(), 0])       # the output keeps a copy of a leak failure (if there is one)
+            nid += 1
+        else:
+            ex.append(["end", "o", 0, 0, 0, 0])
+    ex.append(["final", "o", 0, 0, 0, 0])
     return ex
 
 
 def nontrivial(e):
-    return any(l[0] in ("free", "expect", "ignore", "fail") for l in e) and any(l[0] == "alloc" for l in e)
+    return any(l[0] in ("free", "realloc", "rfail", "expect", "ignore", "fail") for l in e) and any(l[0] == "alloc" for l in e)
 
 
 def key_fn(kind, ex, idx, observed):
@@ -92,7 +171,7 @@ def key_fn(kind, ex, idx, observed):
         return kind + ":?"
     l = ex[idx]
     k = "%s:%s" % (kind, l[0])
-    if l[0] in ("alloc", "free", "expect", "ignore", "fail"):
+    if l[0] in ("alloc", "free", "realloc", "rfail", "expect", "ignore", "fail"):
         k += ":phase=" + str(l[1])
     if observed and l[0] == "end":
         k += ":leakfail=%s:own=%s" % (observed.get("leakfail"), min(int(observed.get("own", 0)), 1))
@@ -107,7 +186,7 @@ def run(ctx):
     pcfg = ctx.write_cfg("Predict_LeakPlugin", TRACE % {"spec": "PSpec", "tail": "INVARIANT Predict"})
     if ctx.replay:
         rp = json.load(open(ctx.replay))
-        ex = [l.split("\t") for l in rp["script"]]
+        ex = [(l.split("\t") + ["0", "0", "0"])[:6] for l in rp["script"]]
         conform(ctx, "replay", [ex], run_h, "Trace_LeakPlugin", tcfg, pcfg, key_fn)
         return ctx.finish("replay of one recorded execution", 1)
 
@@ -118,9 +197,12 @@ def run(ctx):
                           "constants": "%(tests)d tests, %(blocks)d blocks, %(ops)d operations per test in any phase, expected in {0 (default), %(exp)s}" % m}
 
     distinct = set()
+    shapes = {"older": 0, "newer": 0}
     # ---- leg 2: programs generated by TLC from the specification, run through the real registry / plugin / detector
-    gens = [("bfs", {"tests": 2, "blocks": 2, "ops": 2 if quick else 3, "exp": "1", "D": 5 if quick else 7}, None, None),
-            ("sim", {"tests": 12, "blocks": 40, "ops": 6, "exp": "0, 1, 2", "D": 60}, 60 if quick else 1500, 80)]
+    gens = [("bfs", {"tests": 2, "blocks": 2, "ops": 2 if quick else 3, "exp": "1", "D": 5 if quick else 7,
+                     "buckets": "1", "fams": "1", "keeps": "FALSE, TRUE"}, None, None),
+            ("sim", {"tests": 12, "blocks": 40, "ops": 6, "exp": "0, 1, 2", "D": 60,
+                     "buckets": "0, 1, 2", "fams": "0, 1", "keeps": "FALSE, TRUE"}, 60 if quick else 1500, 80)]
     for (lab, g, sim, depth) in gens:
         gr = ctx.tlc("Gen_LeakPlugin", ctx.write_cfg("Gen_LeakPlugin_" + lab, GEN % g), workers=8, simulate=sim, depth=depth, timeout=1800, heap="8g")
         execs = [beh_to_exec(h) for h in gr.beh]
@@ -131,6 +213,9 @@ def run(ctx):
             conform(ctx, "%s%d" % (lab, i // 10000), execs[i:i + 10000], run_h, "Trace_LeakPlugin", tcfg, pcfg, key_fn, tlc_timeout=1800)
         ctx.evaluations += sum(len(e) for e in execs)
         distinct.update(json.dumps(e) for e in execs if nontrivial(e))
+        for e in execs:
+            o, n = chain_shapes(e)
+            shapes["older"] += o; shapes["newer"] += n
 
     # ---- leg 3: seeded random runs of 20-200 tests, validated against the specification
     nprog = 12 if quick else 300
@@ -139,13 +224,27 @@ def run(ctx):
     conform(ctx, "random", progs, run_h, "Trace_LeakPlugin", tcfg, pcfg, key_fn, tlc_timeout=1800)
     ctx.evaluations += sum(len(e) for e in progs)
     distinct.update(json.dumps(e[:60]) for e in progs)
+    for e in progs:
+        o, n = chain_shapes(e)
+        shapes["older"] += o; shapes["newer"] += n
+    ctx.notes["programs_where_a_test_ends_with_a_foreign_record_in_the_chain_of_one_of_its_blocks"] = \
+        {"behind_it (older record)": shapes["older"], "in_front_of_it (re-inserted / reporting-time record)": shapes["newer"]}
+    if not shapes["older"] or not shapes["newer"]:
+        raise Infra("the generated programs no longer put foreign records behind and in front of a test's blocks in a shared chain: %s" % shapes)
     return ctx.finish(
         rule="executions = TLC-generated programs of LeakPlugin (exhaustive to depth D over 2 tests; simulation to 60 steps over up to 12 tests) "
              "+ seeded random runs of 20-200 tests, each run through the real TestRegistry/UtestShell/Utest lifecycle with the real "
-             "MemoryLeakWarningPlugin and detector; distinct = distinct programs; non-trivial = allocates and also releases, declares, ignores or fails",
+             "MemoryLeakWarningPlugin and detector and the real global operator new[] / malloc / realloc / free, over arena allocators that put "
+             "each block into the hash bucket the program chose; distinct = distinct programs (placements included); non-trivial = allocates "
+             "and also releases, re-allocates, declares, ignores or fails",
         distinct_nontrivial=len(distinct), exhaustive=False,
         assumptions=["blocks are identified in reports by their allocation number (read from the detector just before each scripted allocation)",
                      "a test's own failure is FAIL() (leaves the phase; a failing setup skips the body; teardown runs)",
                      "while a test runs, its Utest object is one more tracked block (allowed for in the counts observed during the test)",
                      "the final report is read from the last report header on (the detector appends to its message buffer)",
-                     "tests keep at most 7 of their blocks outstanding so that leak reports are not truncated"])
+                     "tests keep at most 7 of their blocks outstanding so that leak reports are not truncated",
+                     "placement: the library's current new[] / malloc allocators and PlatformSpecificRealloc are replaced by arena versions that return "
+                     "an address of the designated bucket (address % 73) the script names, or the real malloc's address (bucket 0 of the script)",
+                     "a moving realloc yields a block allocated by whoever re-allocated it (old block released); a failing realloc (out of memory) "
+                     "changes nothing; only malloc-family blocks are re-allocated",
+                     "an output that keeps a tracked copy of a leak failure allocates it while the failure is reported: the copy belongs to no test"])
